@@ -64,6 +64,23 @@ pub fn gen(out: &mut Out, ex: &mut Exec, _seed: u64, _thorough: bool) {
     out.exhaustive = true;
     out.nontrivial = out.evaluations;
     out.rule = "exhaustive: every u16/i16 bit pattern x N in 1..=16 x {new,new_trunc} x {signed,unsigned}; all cases distinct by construction; non-trivial = all (each is a different (N,value,op))".into();
+    // the same rule where offsets are created from source text: a non-negative literal written in an N-bit signed operand
+    // position fits exactly when it is below 2^(N-1) (no reinterpretation of x8000..xFFFF as negative), an unsigned one
+    // (TRAP vector) exactly when it is below 2^N
+    for (pre, n, signed) in [("ADD R0, R0, ", 5u32, true), ("AND R0, R0, ", 5, true), ("LDR R0, R1, ", 6, true), ("STR R0, R1, ", 6, true), ("BRnzp ", 9, true), ("LD R0, ", 9, true), ("LEA R0, ", 9, true), ("JSR ", 11, true), ("TRAP ", 8, false)] {
+        let lim = if signed { 1u32 << (n - 1) } else { 1u32 << n };
+        let mut vals: Vec<u32> = vec![0, 1, lim - 1, lim, lim + 1, 2 * lim - 1, 2 * lim, 0x7FFF, 0x8000, 0x8001, 0xFFFF, 0xFFFE, 0x10000 - lim, 0x10000 - lim - 1, 0xFC00, 0xFF00, 0xFFE0, 0xFFF0];
+        vals.sort(); vals.dedup();
+        for v in vals { for t in [format!("#{v}"), format!("x{:X}", v), format!("{v}")] {
+            let text = format!("{pre}{t}");
+            let line = format!("parse {}", crate::c25::hexs(text.as_bytes()));
+            let r = ex.line(&line);
+            let accept = v < lim;
+            if r.starts_with("ok 1 ::") != accept { out.fail(out.lines, format!("`{text}`: accepted={}, expected {accept} ({r})", r.starts_with("ok 1 ::")), line.clone()); }
+            out.hist.hit(if accept { "parsed_literal_fits" } else { "parsed_literal_rejected" });
+            out.op(&line, &r); out.evaluations += 1;
+        } }
+    }
     // N outside 1..=16 panics (documented); two instances, outside the property's quantifier.
     for line in ["off S 17 0012", "off U 0 0000"] { let r = ex.line(line); out.op(line, &r); }
 }
